@@ -24,7 +24,7 @@ import (
 )
 
 func runMeter(r *vk.Run) {
-	n := r.Pick(1000, 30000)
+	n := r.Pick(3000, 100000)
 	for i := 0; i < n; i++ {
 		if !r.Mine(i) {
 			continue
@@ -139,6 +139,12 @@ func meterCase(r *vk.Run, idx int) {
 		return
 	}
 	r.Eval(1)
+	if ctor != "NewModel" && got.EndTime != nil && got.EndTime.AsTime().Equal(clk.Now()) && !ref.end.Equal(clk.Now()) {
+		// "make sure start and end time are recorded": whether a configured end time is kept or refreshed to the
+		// construction time is left open; both are accepted
+		r.Count("meter/open-domain:configured-end-time-refreshed", 1)
+		ref.end = clk.Now()
+	}
 	if rule, detail := meterDiff(got, ref); rule != "" {
 		if ctor == "NewModel" {
 			t.viol(rule, ctor, "after construction: %s (reading %s)", detail, vk.JSON(got))
